@@ -271,7 +271,8 @@ def analyse_verdict(run, rule, model, fi, list_param, mapping_param, depth):
                     _check_errfact_args(vt, node)
                     cur = "E"
                 else:
-                    raise AnalysisError("verdict variable `%s` of %s is assigned an unrecognised value at %s: %s" % (d.name, fi.qual, fi.loc(node), show(vt)))
+                    findings.append(("the variable holding the verdict is assigned %s, which is not the error created for the contract whose condition was found falsy: the group is then treated as violated (and the next group decides) or a foreign object is raised" % show(strip_sites(vt), 80), node, (node.id, state)))
+                    cur = "E"
         if node.kind == "return":
             rt = flow.term(node.ast, node) if node.ast is not None else ("const", "None")
             if is_errfact_call(rt) and not any(d.name in verdict_vars for d in flow.node_defs.get(node.id, [])):
